@@ -27,9 +27,20 @@ func checkC13(c *Ctx) {
 	r.Rule("R13.3", "counts: Dump = Walk's count; Walk +1 per successful callback; Restore +1 per stored record", 9)
 	r.Rule("R13.4", "Restore indexes the entry by its own key like Write", 3)
 	r.Rule("R13.5", "the expiry survives accessor round trips: ts is UnixNano and tsTime its exact inverse (also for 0)", 2)
+	r.Rule("R13.6", "dumped keys are the stored (private) keys; GobRegister registers the given value itself with encoding/gob", 4)
 	r.NotDecided = []string{"encoding/gob's own behaviour", "round-trip equality of values", "partial import on a broken stream"}
 	info := c.Pkg.TypesInfo
 	c.withAlias(map[string]string{"R10.5": "R13.5"}, func() { c.c10TsInverse() })
+	// R13.6: what is dumped is what the cache holds and what gob was told about: stored keys are private copies (a dump must
+	// not carry keys the caller rewrote afterwards) and GobRegister registers the very value it was given
+	c.borrow("C09", func() {
+		for _, b := range backends {
+			c.c09WriteCopies(b)
+		}
+	}, func(o *coreObl) (string, bool) { return "R13.6", o.Rule == "R09.2" })
+	c.borrow("C14", func() { c.c14Register() }, func(o *coreObl) (string, bool) {
+		return "R13.6", o.Rule == "R14.3" && o.Construct == "GobRegister" && (o.Status == "discharged" || strings.HasPrefix(o.What, "not-registered-with-gob"))
+	})
 	for _, b := range backends {
 		// R13.1 -------------------------------------------------------------------------------
 		name := b.Wrapper + ".Restore"
